@@ -336,6 +336,22 @@ func (x *Exec) verifyFunc(fn *ssa.Function, c *FuncContract) {
 		x.fail(relName(fn) + ": no body")
 		return
 	}
+	// dynamic types the function itself tells apart or boxes: known up front, so that what is assumed about "does this
+	// dynamic type implement that interface" does not depend on the order in which paths are explored
+	for _, b := range fn.Blocks {
+		for _, in := range b.Instrs {
+			switch v := in.(type) {
+			case *ssa.TypeAssert:
+				if _, isIface := v.AssertedType.Underlying().(*types.Interface); !isIface {
+					x.typeID(v.AssertedType)
+				}
+			case *ssa.MakeInterface:
+				if _, isIface := v.X.Type().Underlying().(*types.Interface); !isIface {
+					x.typeID(v.X.Type())
+				}
+			}
+		}
+	}
 	st := newState()
 	fr := &Frame{fn: fn, regs: map[ssa.Value]Value{}, env: map[string]envEntry{}, loopSeen: map[*ssa.BasicBlock]bool{}}
 	params := map[string]Value{}
@@ -2166,6 +2182,28 @@ func (x *Exec) typeAssert(st *State, fr *Frame, in *ssa.TypeAssert) []*State {
 		okT := x.sym.fresh("implements", SBool)
 		if types.AssignableTo(in.X.Type(), T) {
 			okT = not(eq(iv.Tag, intLit(0)))
+		} else {
+			// what is known statically: nil implements nothing, and for every dynamic type met so far in this
+			// verification unit whether it implements T
+			st.assume(implies(eq(iv.Tag, intLit(0)), not(okT)))
+			ids := make([]int, 0, len(x.typeByID))
+			for id := range x.typeByID {
+				ids = append(ids, id)
+			}
+			sort.Ints(ids)
+			if it, ok := T.Underlying().(*types.Interface); ok {
+				for _, id := range ids {
+					dt := x.typeByID[id]
+					if _, isIface := dt.Underlying().(*types.Interface); isIface {
+						continue
+					}
+					fact := okT
+					if !types.Implements(dt, it) {
+						fact = not(okT)
+					}
+					st.assume(implies(eq(iv.Tag, intLit(int64(id))), fact))
+				}
+			}
 		}
 		res := retype(iv, T)
 		if in.CommaOk {
